@@ -6,8 +6,8 @@
    every run).  The refinement theorems proved so far are collected in Proofs/IsaP.v; forms
    not yet covered by a theorem are decided by the implementation <-> specification <->
    hardware differential run only (listed as unproved_forms in the evidence). *)
-From Coq Require Import ZArith Bool List.
-From AxV Require Import Bits Outcome Codes Iced State Rt Mem Trace Exec ExecP FrameTac FrameP RegFile RegsP ByteStore ISA CodeSem IsaP OperandP FlagsP RmP AluP AluRmP AluMemP.
+From Coq Require Import ZArith Bool List Lia.
+From AxV Require Import Bits Outcome Codes Iced State Rt Mem Trace Exec ExecP FrameTac FrameP RegFile RegsP ByteStore ISA CodeSem IsaP OperandP FlagsP RmP AluP AluRmP AluMemP Alu32P.
 From AxG Require Import Flags Regs Operand Helpers Dispatch Frame I_add I_and I_sub I_cmp I_xor.
 Local Open Scope Z_scope.
 
@@ -149,6 +149,44 @@ Proof.
   - exact (and_m64_r64_refines c i s Hwf HI Hrf Hn K0 Hm K1 H1 Ec).
 Qed.
 
+(* ---- 32-bit forms.  A 32-bit register destination is zero-extended to 64 bits. ---- *)
+
+(* r32 <- r/m32 (register or memory source) *)
+Theorem C02_alu_r32_rm32 : forall c i s,
+  wf_regs s -> Inv (mem s) -> 0 <= rflags s < 2 ^ 63 -> i_op_count i = 2 ->
+  i_op_kind i 0 = OK_Register -> is_gpr32 (i_op_register i 0) = true -> rm32_shape i 1 ->
+  (i_code i = C_Add_r32_rm32 -> alu32_refines i s ADD (instr_add_r32_rm32 c i s)) /\
+  (i_code i = C_Sub_r32_rm32 -> alu32_refines i s SUB (instr_sub_r32_rm32 c i s)) /\
+  (i_code i = C_Cmp_r32_rm32 -> alu32_refines i s CMP (instr_cmp_r32_rm32 c i s)) /\
+  (i_code i = C_And_r32_rm32 -> alu32_refines i s AND (instr_and_r32_rm32 c i s)) /\
+  (i_code i = C_Xor_r32_rm32 -> alu32_refines i s XOR (instr_xor_r32_rm32 c i s)).
+Proof.
+  intros c i s Hwf HI Hrf Hn K0 H0 Hs.
+  assert (Hrf64 : 0 <= rflags s < 2 ^ 64) by (change (2 ^ 63) with 9223372036854775808 in Hrf; change (2 ^ 64) with 18446744073709551616; Lia.lia).
+  repeat split; intros Ec.
+  - exact (add_r32_rm32_refines c i s Hwf HI Hrf Hn K0 H0 Hs Ec).
+  - exact (sub_r32_rm32_refines c i s Hwf HI Hrf Hn K0 H0 Hs Ec).
+  - exact (cmp_r32_rm32_refines c i s Hwf HI Hrf Hn K0 H0 Hs Ec).
+  - exact (and_r32_rm32_refines c i s Hwf HI Hrf64 Hn K0 H0 Hs Ec).
+  - exact (xor_r32_rm32_refines c i s Hwf HI Hrf64 Hn K0 H0 Hs Ec).
+Qed.
+
+(* r/m32 <- r32 with a register OR memory destination (read-modify-write) *)
+Theorem C02_alu_rm32_r32 : forall c i s,
+  wf_regs s -> Inv (mem s) -> 0 <= rflags s < 2 ^ 63 -> i_op_count i = 2 ->
+  rm32_shape i 0 -> i_op_kind i 1 = OK_Register -> is_gpr32 (i_op_register i 1) = true ->
+  (i_code i = C_Add_rm32_r32 -> rmw32_refines i s ADD (instr_add_rm32_r32 c i s)) /\
+  (i_code i = C_Sub_rm32_r32 -> rmw32_refines i s SUB (instr_sub_rm32_r32 c i s)) /\
+  (i_code i = C_Cmp_rm32_r32 -> rmw32_refines i s CMP (instr_cmp_rm32_r32 c i s)) /\
+  (i_code i = C_And_rm32_r32 -> rmw32_refines i s AND (instr_and_rm32_r32 c i s)).
+Proof.
+  intros c i s Hwf HI Hrf Hn Hs0 K1 H1. repeat split; intros Ec.
+  - exact (add_rm32_r32_refines c i s Hwf HI Hrf Hn Hs0 K1 H1 Ec).
+  - exact (sub_rm32_r32_refines c i s Hwf HI Hrf Hn Hs0 K1 H1 Ec).
+  - exact (cmp_rm32_r32_refines c i s Hwf HI Hrf Hn Hs0 K1 H1 Ec).
+  - exact (and_rm32_r32_refines c i s Hwf HI Hrf Hn Hs0 K1 H1 Ec).
+Qed.
+
 Print Assumptions cond_matches_sdm.
 Print Assumptions C02_set_flags_64.
 Print Assumptions C02_set_flags_8.
@@ -161,3 +199,5 @@ Print Assumptions C02_xor_rm64_r64.
 Print Assumptions C02_alu_r64_rm64.
 Print Assumptions C02_xor_r64_rm64.
 Print Assumptions C02_alu_m64_r64.
+Print Assumptions C02_alu_r32_rm32.
+Print Assumptions C02_alu_rm32_r32.
